@@ -136,9 +136,7 @@ unsafe impl<L: Lockable> RawLock for RetryingLockCollection<L> {
 	unsafe fn raw_unlock_write(&self) {
 		let locks = get_locks_unsorted(&self.data);
 
-		for lock in locks {
-			lock.raw_unlock_write();
-		}
+		attempt_to_recover_writes_from_panic(&locks);
 	}
 
 	unsafe fn raw_read(&self) {
@@ -226,9 +224,7 @@ unsafe impl<L: Lockable> RawLock for RetryingLockCollection<L> {
 	unsafe fn raw_unlock_read(&self) {
 		let locks = get_locks_unsorted(&self.data);
 
-		for lock in locks {
-			lock.raw_unlock_read();
-		}
+		attempt_to_recover_reads_from_panic(&locks);
 	}
 }
 
